@@ -47,6 +47,10 @@ class St:
         self.trace = []
         self.depth = 0
         self.hgen = 0
+        self.spec_assume = False
+        self.hgen_parent = {}      # generation -> (parent generation, alloc bound): agree below the bound
+        self.hgen_unknown = False  # an unmodelled effect havocked the whole heap
+        self.owner_bound = None    # closures: objects at or above this reference are owned by the enclosing call
 
     def fork(self):
         s = St()
@@ -62,6 +66,10 @@ class St:
         s.trace = list(self.trace)
         s.depth = self.depth
         s.hgen = self.hgen
+        s.spec_assume = self.spec_assume
+        s.hgen_parent = self.hgen_parent
+        s.hgen_unknown = self.hgen_unknown
+        s.owner_bound = self.owner_bound
         return s
 
     def assume(self, c):
